@@ -291,8 +291,12 @@ Holds(p) ==
     \* the preparation itself does not touch deposits: custody and collateral still hold right after it
     IF AfterStop /\ p = "C03" THEN /\ (ev'.name = "PrepZeroHeight" => Inv_C03')
                                      \* the deposits a fresh chain takes over are the ones in custody
+                                     \* ... each still locked as it was: available, or disabled since the same instant
                                      /\ ((ev'.name = "Genesis" /\ ev'.gen.importok) =>
-                                            SumDeps(S_bind(ev'.gen.imp)) = bal[DEP]) ELSE
+                                            LET ib == S_bind(ev'.gen.imp) IN
+                                            /\ SumDeps(ib) = bal[DEP]
+                                            /\ \A k \in (DOMAIN ib) \cap (DOMAIN bind) :
+                                                  ib[k].avail = bind[k].avail /\ ib[k].dtime = bind[k].dtime) ELSE
     IF AfterStop /\ p = "C14" THEN (ev'.name = "PrepZeroHeight" => Inv_C14') ELSE
     IF AfterStop /\ p = "C09" THEN (ev'.name = "PrepZeroHeight" => Prep_C09) ELSE
     IF AfterStop /\ p \notin {"C19", "C20"} THEN TRUE ELSE
